@@ -155,4 +155,126 @@ theorem runSearch_sound (a : Addr) :
     exact inv.curr_zero i (by simpa using h1) (by simp at h2; omega)
   · exact ⟨inv.max_le, inv.max_zero⟩
 
+/-! ### the shape of the printed text -/
+
+/-- pieces joined by ':' -/
+def joinC : List Bytes → Bytes
+  | [] => []
+  | [x] => x
+  | x :: y :: rest => x ++ [58] ++ joinC (y :: rest)
+
+/-- `L::R` -/
+def layoutText (l r : List Nat) : Bytes :=
+  joinC (l.map printGroup) ++ [58, 58] ++ joinC (r.map printGroup)
+
+theorem segL_end : ∀ (gs : List Nat) (ii : Nat), ii + gs.length = 8 →
+    segL gs ii = joinC (gs.map printGroup) := by
+  intro gs
+  induction gs with
+  | nil => intro ii _; simp [segL, joinC]
+  | cons g rest ih =>
+    intro ii h
+    cases rest with
+    | nil =>
+      have : ¬ ii < 7 := by simp at h; omega
+      simp [segL, joinC, this]
+    | cons g' rest' =>
+      have h7 : ii < 7 := by simp at h; omega
+      rw [segL, ih (ii + 1) (by simp at h ⊢; omega)]
+      simp [joinC, h7]
+
+theorem segL_mid : ∀ (gs : List Nat) (ii : Nat), ii + gs.length ≤ 7 → gs ≠ [] →
+    segL gs ii = joinC (gs.map printGroup) ++ [58] := by
+  intro gs
+  induction gs with
+  | nil => intro ii _ h; exact absurd rfl h
+  | cons g rest ih =>
+    intro ii h _
+    have h7 : ii < 7 := by simp at h; omega
+    cases rest with
+    | nil => simp [segL, joinC, h7]
+    | cons g' rest' =>
+      rw [segL, ih (ii + 1) (by simp at h ⊢; omega) (by simp)]
+      simp [joinC, h7]
+
+theorem zero_run_split (a : Addr) (ms mz : Nat) (hle : ms + mz ≤ 8)
+    (hz : ZeroRange a.toList ms (ms + mz)) :
+    a.toNats = a.toNats.take ms ++ List.replicate mz 0 ++ a.toNats.drop (ms + mz) := by
+  have hmid : (a.toNats.drop ms).take mz = List.replicate mz 0 := by
+    rw [List.eq_replicate_iff]
+    refine ⟨by simp [toNats_length]; omega, ?_⟩
+    intro b hb
+    rw [List.mem_iff_getElem] at hb
+    obtain ⟨j, hj, hbj⟩ := hb
+    have hj' : j < mz := by simp [toNats_length] at hj; omega
+    have := hz (ms + j) (by omega) (by omega)
+    rw [← hbj]
+    simp only [List.getElem_take, List.getElem_drop, Addr.toNats, List.getElem_map]
+    have hlt : ms + j < a.toList.length := by simp; omega
+    rw [List.getElem?_eq_getElem hlt] at this
+    have := Option.some.inj this
+    rw [this]; rfl
+  rw [← hmid]
+  have : a.toNats.drop (ms + mz) = (a.toNats.drop ms).drop mz := by rw [List.drop_drop]
+  rw [this, List.append_assoc, List.take_append_drop, List.take_append_drop]
+
+theorem printGroup_zero : printGroup 0 = [48] := by decide
+
+/-- **Shape of the printed text** (repaired printer, non-IPv4 branch). -/
+theorem ntop_shape (a : Addr) (h4 : isIPv4 a = false) :
+    ntopFull a = joinC (a.toNats.map printGroup) ∨
+    ∃ l r, l ≠ [] ∧ l.length + r.length ≤ 7 ∧ (r = [] → l.length ≤ 6) ∧
+      a.toNats = l ++ List.replicate (8 - (l.length + r.length)) 0 ++ r ∧
+      ntopFull a = layoutText l r := by
+  obtain ⟨hle, hz⟩ := runSearch_sound a
+  unfold ntopFull ntopFullWith
+  simp only [h4, Bool.false_eq_true, ↓reduceIte]
+  generalize (runSearch runStep a).1 = ms at *
+  generalize (runSearch runStep a).2 = mz at *
+  by_cases hmz : mz ≤ 1
+  · left
+    rw [printLoop_rest a 1 ms mz 8 0 (Or.inl hmz) (by omega)]
+    simp only [List.drop_zero]
+    exact segL_end _ 0 (by rw [toNats_length])
+  · right
+    have hms : ms < 8 := by omega
+    have hsplit := zero_run_split a ms mz hle hz
+    have hR : segL (a.toNats.drop (ms + mz)) (ms + mz) = joinC ((a.toNats.drop (ms + mz)).map printGroup) :=
+      segL_end _ _ (by simp [toNats_length]; omega)
+    rw [printLoop_run a 1 ms mz (by omega) hms 8 0 (by omega) (by omega)]
+    simp only [List.drop_zero, Nat.sub_zero]
+    by_cases h0 : ms = 0
+    · subst h0
+      refine ⟨[0], a.toNats.drop mz, by simp, by simp [toNats_length]; omega, by intro _; simp, ?_, ?_⟩
+      · have : 8 - ([0].length + (a.toNats.drop mz).length) = mz - 1 := by
+          simp [toNats_length]; omega
+        rw [this]
+        have hrep : [0] ++ List.replicate (mz - 1) 0 = List.replicate mz 0 := by
+          have : mz = (mz - 1) + 1 := by omega
+          rw [this, List.replicate_succ]; simp
+        rw [hrep]
+        simpa using hsplit
+      · simp only [Nat.zero_add] at hR
+        simp [layoutText, joinC, printGroup_zero, segL, hR]
+    · refine ⟨a.toNats.take ms, a.toNats.drop (ms + mz), ?_, ?_, ?_, ?_, ?_⟩
+      · intro hnil
+        have := congrArg List.length hnil
+        simp [toNats_length] at this; omega
+      · simp [toNats_length]; omega
+      · intro hnil
+        have := congrArg List.length hnil
+        simp [toNats_length] at this
+        simp [toNats_length]; omega
+      · have : 8 - ((a.toNats.take ms).length + (a.toNats.drop (ms + mz)).length) = mz := by
+          simp [toNats_length]; omega
+        rw [this]; exact hsplit
+      · have hL : segL (a.toNats.take ms) 0 = joinC ((a.toNats.take ms).map printGroup) ++ [58] := by
+          apply segL_mid
+          · simp [toNats_length]; omega
+          · intro hnil
+            have := congrArg List.length hnil
+            simp [toNats_length] at this; omega
+        rw [hL, hR]
+        simp [layoutText, h0]
+
 end Iauthd.Addr
